@@ -165,7 +165,7 @@ pub fn main(args: &Args) -> i32 {
         for v in around(*lim) {
             let mut vals = std::collections::HashMap::new();
             vals.insert(*d, v);
-            push(&mut b, &mut n, format!("set/{d}={v}"), set_event(&make(&vals)));
+            push(&mut b, &mut n, format!("set/{d}={v}"), super::guarded(|| set_event(&make(&vals))));
         }
     }
     for (i, (d1, l1)) in dims.iter().enumerate() {
@@ -175,7 +175,7 @@ pub fn main(args: &Args) -> i32 {
                     let mut vals = std::collections::HashMap::new();
                     vals.insert(*d1, v1);
                     vals.insert(*d2, v2);
-                    push(&mut b, &mut n, format!("set/{d1}={v1},{d2}={v2}"), set_event(&make(&vals)));
+                    push(&mut b, &mut n, format!("set/{d1}={v1},{d2}={v2}"), super::guarded(|| set_event(&make(&vals))));
                 }
             }
         }
@@ -185,8 +185,8 @@ pub fn main(args: &Args) -> i32 {
         for (d, l) in &dims {
             vals.insert(*d, *l);
         }
-        push(&mut b, &mut n, "set/all_at_limit".into(), set_event(&make(&vals)));
-        push(&mut b, &mut n, "set/empty".into(), set_event(&[]));
+        push(&mut b, &mut n, "set/all_at_limit".into(), super::guarded(|| set_event(&make(&vals))));
+        push(&mut b, &mut n, "set/empty".into(), super::guarded(|| set_event(&[])));
     }
     // duplicates: same slot twice in one solution, across solutions of one contract, across contracts
     for (name, sols) in [
@@ -195,7 +195,7 @@ pub fn main(args: &Args) -> i32 {
         ("same_key_other_contract", vec![SolDesc { pd: vec![], ms: vec![MutD { c: 1, kid: 5, kl: 1, vl: 1 }] }, SolDesc { pd: vec![], ms: vec![MutD { c: 2, kid: 5, kl: 1, vl: 1 }] }]),
         ("dup_and_key_too_large", vec![SolDesc { pd: vec![], ms: vec![MutD { c: 1, kid: 5, kl: 1001, vl: 1 }, MutD { c: 1, kid: 5, kl: 1001, vl: 1 }] }]),
     ] {
-        push(&mut b, &mut n, format!("set/{name}"), set_event(&sols));
+        push(&mut b, &mut n, format!("set/{name}"), super::guarded(|| set_event(&sols)));
     }
     // random small sets
     let count = if args.thorough { 3000 } else { 300 };
@@ -211,12 +211,12 @@ pub fn main(args: &Args) -> i32 {
             })
             .collect();
         // the key is determined by (kid, kl): make kl a function of kid except for the oversized ones
-        push(&mut b, &mut n, format!("set/rand/{i}"), set_event(&sols));
+        push(&mut b, &mut n, format!("set/rand/{i}"), super::guarded(|| set_event(&sols)));
     }
     // predicates / contracts
     for nn in around(1000) {
         for ne in around(1000) {
-            push(&mut b, &mut n, format!("pred/{nn}/{ne}"), contract_event(&[(nn, ne)], None));
+            push(&mut b, &mut n, format!("pred/{nn}/{ne}"), super::guarded(|| contract_event(&[(nn, ne)], None)));
         }
     }
     for np in around(100) {
@@ -226,7 +226,7 @@ pub fn main(args: &Args) -> i32 {
                 let k = np - 1;
                 ps[k] = (nn, ne);
             }
-            push(&mut b, &mut n, format!("contract/{np}/{nn}/{ne}"), contract_event(&ps, None));
+            push(&mut b, &mut n, format!("contract/{np}/{nn}/{ne}"), super::guarded(|| contract_event(&ps, None)));
         }
     }
     // signed contracts
@@ -247,7 +247,7 @@ pub fn main(args: &Args) -> i32 {
             let zero = Signature([0; 64], 0);
             let ff = Signature([0xFF; 64], 1);
             for (how, sig) in [("good", good.clone()), ("flipped", flipped), ("bad_recovery_id", badid), ("zero", zero), ("ff", ff)] {
-                push(&mut b, &mut n, format!("signed/{np}/{nn}/{how}"), contract_event(&ps, Some((how, sig))));
+                push(&mut b, &mut n, format!("signed/{np}/{nn}/{how}"), super::guarded(|| contract_event(&ps, Some((how, sig)))));
             }
         }
     }
